@@ -182,6 +182,10 @@ def sweep_corpus_digits(job: dict) -> dict:
                 for r in "078F":
                     if r != ch:
                         check_line(col, head + pl[:i] + r + pl[i + 1:], "G5", frozenset(), {"from": ln, "pos": i})
+            for i in range(0, len(pl) - 3, 2):  # ... and every byte-aligned 16-bit word set to a boundary word
+                for w in ("7FFF", "8000", "8001", "FFFF", "0000"):
+                    if pl[i:i + 4] != w:
+                        check_line(col, head + pl[:i] + w + pl[i + 4:], "G5", frozenset(), {"from": ln, "pos": i, "word": w})
     col.note("corpus (verb, code, length) groups swept", len(keys))
     return col.dump()
 
